@@ -571,6 +571,11 @@ func (c *compiler) setQualname() {
 
 // Compile a function
 func (c *compiler) compileFunc(compilerScope compilerScopeType, Ast ast.Ast, Args *ast.Arguments, DecoratorList []ast.Expr, Returns ast.Expr) {
+	// MAKE_FUNCTION's operand holds the number of defaults and the
+	// number of keyword-only defaults in one byte each
+	if len(Args.Args)+len(Args.Kwonlyargs) > 255 {
+		c.panicSyntaxErrorf(Ast, "more than 255 arguments")
+	}
 	newC := c.newCompilerScope(compilerScope, Ast, "")
 	newC.Code.Argcount = int32(len(Args.Args))
 	newC.Code.Kwonlyargcount = int32(len(Args.Kwonlyargs))
